@@ -534,7 +534,9 @@ func runC04(args []string) error {
 	co := newCaseOut(cf.out, "Harness.C04", "N",
 		"call trees (random; plus a throw and an abort injected at every node of fault-free base trees) compiled to an entry script and "+
 			"to arguments of three deployed NeoVM interpreter contracts, run as one transaction in a block (with read-only transactions before/after) "+
-			"on two replica chains from the observed pre-state; non-trivial = the tree contains a throw or an abort; distinct by Coq term")
+			"on two replica chains from the observed pre-state; block cases: 2-4 transactions in one block (earlier ones ending in HALT / uncaught throw / "+
+			"ABORT / ASSERT / fault in a callee / fault or swallowed exception in a finally block / out of gas, the last one with layered calls), the same "+
+			"transactions one per block on the replica; non-trivial = the tree contains a throw or an abort, for a block case: some transaction before the last did not halt; distinct by Coq term")
 	co.shard = 60
 	if cf.replay != "" {
 		cases, err := readReplay(cf.replay)
@@ -543,14 +545,26 @@ func runC04(args []string) error {
 		}
 		for _, c := range cases {
 			var x struct {
-				Kind  string   `json:"kind"`
-				Input c04Input `json:"input"`
+				Kind  string          `json:"kind"`
+				Input json.RawMessage `json:"input"`
 			}
 			if err := json.Unmarshal(c, &x); err != nil {
 				return err
 			}
 			p := c04NewPair()
-			p.runCase(co, x.Input)
+			if x.Kind == "block" {
+				var in c04BlockInput
+				if err := json.Unmarshal(x.Input, &in); err != nil {
+					return err
+				}
+				p.runBlock(co, in)
+			} else {
+				var in c04Input
+				if err := json.Unmarshal(x.Input, &in); err != nil {
+					return err
+				}
+				p.runCase(co, in)
+			}
 			p.close()
 		}
 		return co.finish()
@@ -685,6 +699,44 @@ func runC04(args []string) error {
 	for i := 0; i < n/6; i++ {
 		g := &c04Gen{r: r, guarded: false, fail: 12 + r.intn(10)}
 		runOps(g.entry(2 + r.intn(2)))
+	}
+	// 4. block position: several transactions on the one reused VM, earlier ones ending in every way
+	for i := 0; i < n/4 && !broken; i++ {
+		if ncase++; ncase%400 == 0 {
+			fresh()
+		}
+		cur := p.a.observe()
+		top := cur
+		top.Bal = append([]int64{}, cur.Bal...)
+		need := false
+		for j := 0; j < c04NContracts; j++ {
+			if top.Bal[j] < 300 {
+				top.Bal[j] += 1000
+				need = true
+			}
+		}
+		if need {
+			if err := p.setup(cur, top); err != nil {
+				broken = true
+				co.violation("block", "set-up transaction could not be applied: "+err.Error(), c04BlockInput{Pre: cur}, nil)
+				break
+			}
+			cur = p.a.observe()
+		}
+		in := c04BlockInput{Pre: cur}
+		for k, nk := 0, 1+r.intn(3); k < nk; k++ {
+			in.Ops = append(in.Ops, c04GenEnder(r))
+		}
+		in.Ops = append(in.Ops, c04GenLater(r))
+		func() {
+			defer func() {
+				if x := recover(); x != nil && !broken {
+					broken = true
+					co.violation("block", fmt.Sprintf("the replica chains could not be driven further: %v", x), in, nil)
+				}
+			}()
+			p.runBlock(co, in)
+		}()
 	}
 	return co.finish()
 }
